@@ -77,7 +77,14 @@ func (l *LookupOptions) String() string {
 		b.WriteString("nil")
 	}
 	b.WriteString(fmt.Sprintf(", LatestAnchor=%v", l.LatestAnchor))
-	b.WriteString(fmt.Sprintf(", FilterOptions=%s>", l.FilterOptions))
+	b.WriteString(fmt.Sprintf(", FilterOptions=%s", l.FilterOptions))
+	if l.Offset != 0 {
+		// Only printed when set, so the representation (and the UUID derived from
+		// it) of options without paging offset does not change.
+		b.WriteString(", offset=")
+		b.WriteString(strconv.Itoa(l.Offset))
+	}
+	b.WriteString(">")
 	return b.String()
 }
 
